@@ -506,5 +506,6 @@ pub fn run(ctx: &mut Ctx) -> Result<(), String> {
             ctx.sample(json!({"n": n, "family": family, "stakes": stakes, "objects": "five vote kinds and five certificate types, every listed mutation class"}));
         }
     }
+    crate::props::cluster_props::run_c09_nodes(ctx, 16, 320);
     Ok(())
 }
